@@ -298,6 +298,9 @@ type Res struct {
 func (r Res) Type() string { return r.Types[len(r.Types)-1] }
 
 func attrStr(a any) string {
+	if e, ok := a.(*schema.EnumType); ok { // holds a *Schema: print no addresses
+		return fmt.Sprintf("enum %s%v", e.T, e.Values)
+	}
 	v := reflect.ValueOf(a)
 	if v.Kind() == reflect.Ptr && !v.IsNil() {
 		return fmt.Sprintf("%T%+v", a, v.Elem().Interface())
